@@ -41,3 +41,26 @@ func verifYield(site string) {
 		f(site)
 	}
 }
+
+// verifLimitOverride holds, if non-zero, replacements for the read chunk size (low 32 bits)
+// and the maximum block size (high 32 bits) of [BlockParser],
+// so that a conformance harness can reach the "block too large" path
+// and the buffer-growth arithmetic with inputs of a few bytes.
+var verifLimitOverride atomic.Uint64
+
+// SetVerifLimits overrides the block parser's read chunk size and maximum block size.
+// Zero values restore the built-in limits.
+func SetVerifLimits(chunkSize, maxBlockSize int) {
+	verifLimitOverride.Store(uint64(uint32(chunkSize)) | uint64(uint32(maxBlockSize))<<32)
+}
+
+func verifLimits(chunkSize, maxBlockSize int) (int, int) {
+	v := verifLimitOverride.Load()
+	if c := int(uint32(v)); c > 0 {
+		chunkSize = c
+	}
+	if m := int(uint32(v >> 32)); m > 0 {
+		maxBlockSize = m
+	}
+	return chunkSize, maxBlockSize
+}
